@@ -4,7 +4,7 @@
     [nat] stays the extracted inductive type.  The files model.ml / model.mli
     are written into the directory coqc runs in (coq/). *)
 From Coq Require Import Extraction ExtrOcamlBasic ExtrOcamlZBigInt.
-From PS Require Import Spec.Primes Spec.Cursor Model.Pmath Model.Iterator Model.PrimeGen Model.Tiling Model.Calc Model.NthPrime Model.Store Model.Mem Model.VecM Model.Wheel Model.Config Model.EratGeom Model.CrossOff Model.Decode Model.EratBigM Model.EratMediumM Model.Erat3M Model.SievingPrimesM.
+From PS Require Import Spec.Primes Spec.Cursor Model.Pmath Model.Iterator Model.PrimeGen Model.Tiling Model.Calc Model.NthPrime Model.Store Model.Mem Model.VecM Model.PoolM Model.Wheel Model.Config Model.EratGeom Model.CrossOff Model.Decode Model.EratBigM Model.EratMediumM Model.Erat3M Model.SievingPrimesM.
 Extraction Language OCaml.
 Extraction "model.ml"
   is_prime primes_between
@@ -13,4 +13,4 @@ Extraction "model.ml"
   align threshold idealNumThreads getThreadDistance plan
   ty_u64 ty_i64 ty_int checked exact eval
   nth_prime store_primes store_n_primes next_buffer addSievingPrime30 addSievingPrime210
-  get_sieve_size initAlgorithms set_sieve_size set_num_threads segments cross_small sieve_loop surviving byte_val erat_self decode_word nextPrime_ctz nextPrime_bruijn run_bytes decode_array pad8 eb_store_all eb_run cross210 em_store_all em_run sieve_loop3 e3_init tiny_sieve tiny_built vec_run.
+  get_sieve_size initAlgorithms set_sieve_size set_num_threads segments cross_small sieve_loop surviving byte_val erat_self decode_word nextPrime_ctz nextPrime_bruijn run_bytes decode_array pad8 eb_store_all eb_run cross210 em_store_all em_run sieve_loop3 e3_init tiny_sieve tiny_built vec_run pool_step pool_init.
